@@ -143,7 +143,9 @@ CLAIMED["C06"] = dict(
     category="proof",
     text="Region.reload is evaluated from source on symbolic, arbitrarily distorted cells (nodal coordinates, reference gradients with "
     "the zero-sum property of C04, weights all generators; dims 1-3): dXdr, drdX (inverse), dV = det * w, reproduction of constants "
-    "and linear functions by dhdX, push-forward of the reference hessian, uniform evaluation of the first cell; the negative-volume "
+    "and linear functions by dhdX, the exact second derivative of h(r(X)) (incl. the geometry term dh/dX . d2X/drdr; hessian of constants and "
+    "linear fields vanishes on distorted cells), uniform evaluation of the first cell, re-evaluation histories (reload / copy / astype after the mesh moved, after "
+    "another region used the element object, after uniform=True); translation invariance of every template's geometry map; the negative-volume "
     "warning is reached iff some dV < 0 (both sign cases via an order oracle); Field / FieldPlaneStrain / FieldAxisymmetric "
     "interpolate, grad, hess, extract against their defining sums (zero padding, F33 = 1 + u_r/R with the radial component and "
     "coordinate at index 1); every Region* template (25 discovered, evaluated with Region.__init__ intercepted) pairs its element "
@@ -152,7 +154,8 @@ CLAIMED["C06"] = dict(
     note="Not decided (sums over runtime data; they follow from these identities with C04 and C05): volumes summing to the geometric "
     "volume on a concrete mesh, equality across element families, rigid-motion invariance, float32 arithmetic (the cast / copy / reload bookkeeping of the cached arrays is decided: O7; shared default "
     "schemes: O8). Reproduction of "
-    "higher-order polynomials on affine cells follows from the push-forward identities and C04's completeness.",
+    "higher-order polynomials on affine cells follows from the push-forward identities and C04's completeness. Two KNOWN FINDINGS are reported on the "
+    "unchanged tree (known_findings.txt): the MINI templates use the hierarchical bubble function in the geometry map, so dV changes under a translation of the mesh (C06.O12).",
     technique="algebraic value numbering of Region.reload and the field kernels on symbolic cells; degree computation on the element polynomials",
 )
 CLAIMED["C10"] = dict(
